@@ -12,7 +12,7 @@
 
 From stdpp Require Import gmap list.
 From Coq Require Import NArith.
-From DC Require Import Ts Orswot OrswotInv OrswotLww OrswotTimely Actor ActorProofs Cluster ClusterProofs ClusterPayload.
+From DC Require Import Ts Orswot OrswotInv OrswotLww OrswotTimely Actor ActorProofs Cluster ClusterProofs ClusterPayload Tracker.
 Open Scope N_scope.
 
 Section C01.
@@ -190,3 +190,32 @@ Proof.
   - repeat (apply Forall_cons_2; [cbn; first [exact I | vm_compute; reflexivity]|]). apply Forall_nil_2.
   - vm_compute. reflexivity.
 Qed.
+
+(** The poller's bookkeeping ("skip a keyspace whose change stamp I have recorded"): the exchange
+    events above always exchange; the implementation skips when the peer's stamp equals the one it
+    recorded.  [Tracker.v] models the stamp, the two separate reads of one GetState reply
+    (stamp read when the peer had [a] writes, set read when it had [b]) and writes handled in
+    between.  In the order of the code (stamp not after set) the recorded stamp never exceeds
+    what was pulled, so a skipped poll skips nothing, and a poll after the last write leaves the
+    node with every write - skipped or not. *)
+Theorem C01_recorded_stamp_never_ahead_of_what_was_pulled :
+  forall es, Tracker.wf 0%nat es -> Forall stamp_first es ->
+    let st := Tracker.run es in
+    (pulled (snd st) <= fst st)%nat /\
+    match recorded (snd st) with Some r => (r <= pulled (snd st))%nat | None => True end.
+Proof. exact recorded_le_pulled. Qed.
+
+Theorem C01_poll_after_last_write_pulls_everything :
+  forall es, Tracker.wf 0%nat es -> Forall stamp_first es ->
+    let v := fst (Tracker.run es) in
+    let st' := Tracker.step (Tracker.run es) (EPoll v v 0%nat) in
+    pulled (snd st') = fst st' /\ fst st' = v.
+Proof. exact quiescent_poll_pulls_everything. Qed.
+
+(** With the reads swapped (set first; a write handled before the stamp is read) a write is
+    never pulled although every later poll succeeds (seeded change C01/A). *)
+Theorem C01_swapped_getstate_reads_refuted :
+  let es := [EWrite; EPoll 2 1 1; EPoll 2 2 0; EPoll 2 2 0]%nat in
+  Tracker.wf 0%nat es /\ ~ Forall stamp_first es /\
+  fst (Tracker.run es) = 2%nat /\ pulled (snd (Tracker.run es)) = 1%nat /\ recorded (snd (Tracker.run es)) = Some 2%nat.
+Proof. exact swapped_reads_refuted. Qed.
